@@ -47,7 +47,16 @@ def gen_program(rng):
                    f"for (unsigned i = 0; i < sizeof many{u} / sizeof *many{u}; i++) s += *(const int *)many{u}[i]; "
                    f"tls_zero{u} += x; tls_local{u} += 2; tls_byte{u} += 1; s += tls_touch{u}(x) + tls_init{u} + tls_zero{u} + tls_local{u} + tls_byte{u} + tls_pubbyte{u} + shared_data{(u + 1) % n}[x & 3]; return s + {nxt}; }}")
         units.append("\n".join(src) + "\n")
-    main = ["#include <stdio.h>", "#include <string.h>", "#ifdef DYN", "#define _GNU_SOURCE", "#include <dlfcn.h>", "#endif", "long unit0(int);"]
+    # a unit whose only strings are 9500 distinct 16-byte strings (152000 bytes of mergeable strings: more than one of the
+    # 140032-byte pieces string merging works in, with strings starting exactly on a piece boundary)
+    nbig = 9500
+    big = ["#include <stdio.h>", "#include <string.h>",
+           "static const char *const bigtab[] = {" + ", ".join(f'"s{i:014d}"' for i in range(nbig)) + "};",
+           # (no other string literal in this unit: the table's strings start at multiples of 16 in its .rodata.str1.1)
+           f"long bigcheck(void) {{ long bad = 0; for (int i = 0; i < {nbig}; i++) {{ const char *s = bigtab[i]; int v = i, ok = s[0] == 's' && s[15] == 0; "
+           f"for (int k = 14; k >= 1; k--) {{ if (s[k] != '0' + v % 10) ok = 0; v /= 10; }} if (!ok) bad++; }} return bad; }}"]
+    units.append("\n".join(big) + "\n")
+    main = ["#include <stdio.h>", "#include <string.h>", "#ifdef DYN", "#define _GNU_SOURCE", "#include <dlfcn.h>", "#endif", "long unit0(int); long bigcheck(void);"]
     main.append("static int ctor_ran; __attribute__((constructor)) static void c(void) { ctor_ran = 42; }")
     main.append("int main(void) { long acc = ctor_ran; for (int x = 0; x < 9; x++) acc = acc * 17 + unit0(x);")
     main.append("#ifdef DYN")
@@ -55,6 +64,7 @@ def gen_program(rng):
     main.append(f"  if (found != {nsym}) {{ printf(\"dlsym found %d of {nsym}\\n\", found); return 99; }}")
     main.append("  if (dlsym(RTLD_DEFAULT, \"no_such_symbol_anywhere\")) { puts(\"dlsym found a ghost\"); return 98; }")
     main.append("#endif")
+    main.append("  { long bad = bigcheck(); if (bad) { printf(\"%ld of the 9500 strings of the big table are wrong\\n\", bad); return 97; } }")
     main.append("  printf(\"%ld\\n\", acc); return (int)(acc & 31); }")
     units.append("\n".join(main) + "\n")
     return units, nsym
